@@ -76,8 +76,8 @@ Definition parse_with {St : Type} (tokF : St -> token -> St) (prodF : St -> prod
 Definition Parse_bt (bt : option (table * bool)) (S : nat) (fuel : nat) (w : list token)
   : pres (list prod) :=
   match parse_with (fun s _ => s) (fun s p => p :: s) bt S fuel w [] with
-  | PAccept s => PAccept (rev s)
-  | PReject e s => PReject e (rev s)
+  | PAccept s => PAccept (rev_append s [])      (* linear-time reversal of the recorded sequence *)
+  | PReject e s => PReject e (rev_append s [])
   | PTableError => PTableError
   | PPanic => PPanic
   | PHang => PHang
